@@ -149,8 +149,9 @@ def run(prog, rep):
     check_object_scope(prog, rep)
 
     # ---------------------------------------------------------------- R3.6 stream window / SetPosition accounting
-    from rules import stream_window
+    from rules import keycmp, stream_window
     stream_window.check(prog, rep, 'R3.6', floor=9)
+    keycmp.check(prog, rep)
 
 
 WRAPPER_TYPES = (('std::byte', 'byte'), ('std::basic_string<', 'string'), ('EnumAsBin<', 'EnumAsBin'), ('std::atomic<', 'atomic'),
